@@ -8,6 +8,9 @@ AST of the current source.  Writes HC/Extracted/ReqGlue.lean.  Used by tools/ext
     arguments  -> `dataAcksDelivered`, `dataAcksMissing : Nat`, `dataAckArgs : List String`
   * `H2Protocol._window_updated`: the tests that choose between "unblock every buffered stream" and "unblock this one"
         -> `windowUpdateAll (stream_id : Option Nat) : Bool`, `windowUpdateOne (stream_id : Option Nat) (buffered : Bool) : Bool`
+  * HTTP/2 trailers: the `Trailers` branch of `H2Protocol.stream_send` (what it calls) and `H2Protocol._end_stream` (which h2
+    call ends the stream with / without pending trailers, and whether that call carries END_STREAM)
+        -> `trailersBranchCalls : List String`, `endStreamTest (n : Nat) : Bool`, `endWithTrailers`, `endWithoutTrailers : List String`
 A source shape the translator does not recognise is an EXTRACT-FAIL [ReqGlue] (the tie is reported broken)."""
 from __future__ import annotations
 
@@ -192,6 +195,45 @@ def run(src: Path, ex: Any) -> str:
         fail("windowUpdated", str(e))
     except Exception as e:  # noqa
         fail("windowUpdated", f"{type(e).__name__}: {e}")
+
+    # ---- HTTP/2 trailers ---------------------------------------------------------------------------------------
+    try:
+        fn = find_def(h2tree, "H2Protocol", "stream_send") if h2tree is not None else None
+        branch = None
+        for n in ast.walk(fn):  # type: ignore
+            if isinstance(n, ast.If) and ast.unparse(n.test) == "isinstance(event, Trailers)":
+                branch = n
+        if branch is None:
+            raise Unsupported("no `isinstance(event, Trailers)` branch in H2Protocol.stream_send")
+        calls = [ast.unparse(c.func) + "(" + ", ".join(ast.unparse(a) for a in c.args) + ")" for st in branch.body for c in ast.walk(st) if isinstance(c, ast.Call)]
+        out.append("def trailersBranchCalls : List String := [" + ", ".join(ex.q(c) for c in calls) + "]   -- every call made by stream_send(Trailers)")
+        fn = find_def(h2tree, "H2Protocol", "_end_stream")
+        if fn is None:
+            raise Unsupported("H2Protocol._end_stream not found")
+        body = [st for st in fn.body if not (isinstance(st, ast.Expr) and isinstance(st.value, ast.Constant))]  # type: ignore
+        if len(body) != 2 or ast.unparse(body[0]) != "trailers = self.stream_buffers[stream_id].trailers" or not isinstance(body[1], ast.If) or len(body[1].orelse) != 1:
+            raise Unsupported("_end_stream is not `trailers = self.stream_buffers[stream_id].trailers; if …: … else: …`")
+        test = body[1].test
+        if not (isinstance(test, ast.Compare) and len(test.ops) == 1 and ast.unparse(test.left) == "len(trailers)" and type(test.ops[0]) in ex.CMP
+                and isinstance(test.comparators[0], ast.Constant) and isinstance(test.comparators[0].value, int)):
+            raise Unsupported(f"_end_stream test `{ast.unparse(test)}` is not a comparison of len(trailers) with a number")
+        op = ex.CMP[type(test.ops[0])]
+        cmp_t = f"(n {op} {test.comparators[0].value})" if op in ("==", "!=") else f"(decide (n {op} {test.comparators[0].value}))"
+        out.append(f"def endStreamTest (n : Nat) : Bool :=\n  {cmp_t}   -- `{ast.unparse(test)}` in H2Protocol._end_stream (n = len(trailers))")
+
+        def h2calls(stmts: List[ast.stmt]) -> List[str]:
+            res = []
+            for st in stmts:
+                for c in ast.walk(st):
+                    if isinstance(c, ast.Call) and ast.unparse(c.func).startswith("self.connection."):
+                        res.append(ast.unparse(c).replace("self.connection.", ""))
+            return res
+        out.append("def endWithTrailers : List String := [" + ", ".join(ex.q(c) for c in h2calls(body[1].body)) + "]   -- h2 calls when the test holds")
+        out.append("def endWithoutTrailers : List String := [" + ", ".join(ex.q(c) for c in h2calls(body[1].orelse)) + "]   -- … when it does not")
+    except Unsupported as e:
+        fail("trailers", str(e))
+    except Exception as e:  # noqa
+        fail("trailers", f"{type(e).__name__}: {e}")
 
     out += ["end HC.Extracted.ReqGlue", ""]
     return "\n".join(out)
